@@ -106,7 +106,6 @@ Hypothesis FL : fields_lt wf.
 Definition se' : sentry := spec_entry wf stab n nd.
 Hypothesis NW : node_wf n se' nd = true.
 Definition U : list nat := ups stab (n_fields nd).
-Hypothesis SH : pairwise (sep_ok wf stab) U = true.
 Hypothesis CA : comb_all_prev_ok stab nd = true.
 
 Definition cur : list key := map (fun f => (n, f)) (n_split nd).
@@ -200,11 +199,11 @@ Proof.
   intros Hx. destruct (up_state x Hx) as [ndx [sex [s [Hlt [E1 [E2 [E3 [EO [SO [HF EF]]]]]]]]]].
   unfold ent_nfinal, ent_indf, ent. rewrite E2, (so_sindf _ _ _ _ _ _ SO), map_length. reflexivity.
 Qed.
-Lemma up_ent_prev x : In x U -> ent_prev mtab x = ups stab (n_fields (node_at wf x)).
+Lemma up_ent_prev_incl x z : In x U -> In z (ent_prev mtab x) -> In z (ups stab (n_fields (node_at wf x))).
 Proof.
-  intros Hx. destruct (up_state x Hx) as [ndx [sex [s [Hlt [E1 [E2 [E3 [EO [SO [HF EF]]]]]]]]]].
-  unfold ent_prev, ent. rewrite E2, (so_prev _ _ _ _ _ _ SO). unfold node_at.
-  rewrite (nth_error_nth _ _ _ E1). reflexivity.
+  intros Hx Hz. destruct (up_state x Hx) as [ndx [sex [s [Hlt [E1 [E2 [E3 [EO [SO [HF EF]]]]]]]]]].
+  unfold ent_prev, ent in Hz. rewrite E2 in Hz. unfold node_at. rewrite (nth_error_nth _ _ _ E1).
+  exact (so_prev_incl _ _ _ _ _ _ SO z Hz).
 Qed.
 Lemma up_faxes_nodup x : In (BUp x) (n_fields nd) -> NoDup (F stab x).
 Proof.
@@ -220,82 +219,65 @@ Proof.
   pose proof (eo_bound _ _ _ _ _ _ EO k (eo_faxes_incl wf _ _ _ _ _ EO k Hk)). lia.
 Qed.
 
-Lemma sep_spec x y : In x U -> In y U -> x <> y ->
-  (forall k, In k (F stab x) -> ~ In k (F stab y)) /\ ~ In x (ups stab (n_fields (node_at wf y))).
-Proof.
-  intros Hx Hy Hne. pose proof (pairwise_spec _ _ SH x y Hx Hy Hne) as H. unfold sep_ok, parents in H.
-  apply andb_true_iff in H. destruct H as [H1 H2]. split.
-  - intros k Hk. unfold disjointk in H1. rewrite forallb_forall in H1. specialize (H1 k Hk).
-    apply negb_true_iff in H1. apply memk_false in H1. exact H1.
-  - apply negb_true_iff in H2. apply memn_false in H2. exact H2.
-Qed.
-
-Lemma up_axes_eq : up_axes stab (n_fields nd) = flat_map (F stab) U.
-Proof.
-  apply up_axes_flat; [exact up_faxes_nodup|].
-  intros x y Hx Hy Hne k Hk Hky.
-  assert (HFx : F stab x <> []) by (intros E; rewrite E in Hk; exact Hk).
-  assert (HFy : F stab y <> []) by (intros E; rewrite E in Hky; exact Hky).
-  exact (proj1 (sep_spec x y (proj2 (ups_in _ _ _) (conj Hx HFx)) (proj2 (ups_in _ _ _) (conj Hy HFy)) Hne) k Hk Hky).
-Qed.
-
 Definition other0 := upstream mtab (n_fields nd).
 Lemma other0_fst : map fst other0 = U.
 Proof. apply upstream_fst. intros x Hx. apply ent_rpnf_eq. apply (proj1 nw_parts). exact Hx. Qed.
 
-Lemma connect_ok : connect mtab other0 = Some (U, other0).
-Proof.
-  rewrite <- other0_fst. apply connect_id. rewrite other0_fst. intros el Hel.
-  apply filter_nil. intros z Hz. rewrite (up_ent_prev el Hel) in Hz.
-  destruct (memn z (filter (fun e => is_nil (ent_other mtab e)) U)) eqn:E; [|reflexivity]. exfalso.
-  apply memn_In in E. apply filter_In in E. destruct E as [HzU _].
-  assert (Hne : z <> el).
-  { intros ->. destruct (up_state el Hel) as [ndx [sex [s [Hlt [E1 _]]]]].
-    apply ups_in in Hz. destruct Hz as [Hz _]. unfold node_at in Hz. rewrite (nth_error_nth _ _ _ E1) in Hz.
-    pose proof (FL el ndx E1 el Hz). lia. }
-  exact (proj2 (sep_spec z el HzU Hel Hne) Hz).
-Qed.
+(* --- everything below only needs to know which upstream states survive _add_state_history (P) and
+   which fields each of them feeds afterwards (other') --- *)
+Section Abs.
+Variables (P : list nat) (other' : list (nat * list nat)).
+Definition cf : nat -> list nat := fields_of other'.
+Hypothesis HPc : (if is_nil other0 then Some ([], []) else connect mtab other0) = Some (P, other').
+Hypothesis HPu : incl P U.
+Hypothesis HPnd : NoDup P.
+Hypothesis HPd : forall p q k, In p P -> In q P -> p <> q -> In k (F stab p) -> ~ In k (F stab q).
+Hypothesis HPa : up_axes stab (n_fields nd) = flat_map (F stab) P.
+Hypothesis HPf1 : forall f x, nth_error (n_fields nd) f = Some (BUp x) -> F stab x <> [] ->
+                    exists p, In p P /\ In f (cf p) /\ F stab x = F stab p.
+Hypothesis HPf2 : forall p f, In p P -> In f (cf p) -> exists x, nth_error (n_fields nd) f = Some (BUp x) /\ F stab x <> [].
+Hypothesis HPf3 : forall p q f, In p P -> In q P -> p <> q -> In f (cf p) -> ~ In f (cf q).
+Hypothesis HPf4 : forall p, In p P -> NoDup (cf p).
+Hypothesis HPo : other' = [] -> P = [].
+Hypothesis HPn : U = [] -> other' = [].
+Hypothesis HPs : List.length U <= 1 -> P = U /\ map fst other' = U.
 
 (* --- the node's axes and index tuples --- *)
-Definition K : list key := flat_map (F stab) U ++ cur.
-Definition cf : nat -> list nat := fields_of other0.
+Definition K : list key := flat_map (F stab) P ++ cur.
 Definition indf' (x : nat) : list (list nat) := box_idx (lens wf (F stab x)).
 Definition curbox : list (list nat) := box_idx (lens wf cur).
 
 Lemma axes_eq : s_axes se' = K.
-Proof. unfold se', spec_entry, K, cur. cbn [s_axes]. rewrite up_axes_eq. reflexivity. Qed.
+Proof. unfold se', spec_entry, K, cur. cbn [s_axes]. rewrite HPa. reflexivity. Qed.
 
-Lemma flatF_bound k : In k (flat_map (F stab) U) -> fst k < n.
+Lemma flatF_bound k : In k (flat_map (F stab) P) -> fst k < n.
 Proof.
-  intros H. apply in_flat_map in H. destruct H as [x [Hx Hk]]. apply ups_in in Hx. eapply up_faxes_bound; [exact (proj1 Hx) | exact Hk].
+  intros H. apply in_flat_map in H. destruct H as [x [Hx Hk]]. apply HPu in Hx. apply ups_in in Hx. eapply up_faxes_bound; [exact (proj1 Hx) | exact Hk].
 Qed.
 Lemma cur_fst k : In k cur -> fst k = n.
 Proof. unfold cur. intros H. apply in_map_iff in H. destruct H as [f [<- _]]. reflexivity. Qed.
 Lemma K_nodup : NoDup K.
 Proof.
   unfold K. apply NoDup_app_intro.
-  - apply NoDup_flat_map; [apply ups_nodup | intros x Hx; apply up_faxes_nodup; apply ups_in in Hx; tauto |].
-    intros x y k Hx Hy Hne. exact (proj1 (sep_spec x y Hx Hy Hne) k).
+  - apply NoDup_flat_map; [exact HPnd | intros x Hx; apply up_faxes_nodup; apply HPu in Hx; apply ups_in in Hx; tauto |].
+    intros x y k Hx Hy Hne. exact (HPd x y k Hx Hy Hne).
   - exact (proj1 (proj2 nw_parts)).
   - intros k Hk Hc. apply flatF_bound in Hk. apply cur_fst in Hc. lia.
 Qed.
 
-Lemma cf_spec x f : In f (cf x) <-> nth_error (n_fields nd) f = Some (BUp x) /\ F stab x <> [].
-Proof. unfold cf, other0. apply upstream_fields. intros y Hy. apply ent_rpnf_eq. apply (proj1 nw_parts). exact Hy. Qed.
-
 Lemma lens_flat_map (l : list nat) : lens wf (flat_map (F stab) l) = List.concat (map (fun x => lens wf (F stab x)) l).
 Proof. induction l as [|x l IH]; [reflexivity|]. cbn [flat_map map List.concat]. rewrite lens_app, IH. reflexivity. Qed.
 
-Lemma TST'_eq : prod2 (prods (map indf' U)) curbox = box_idx (lens wf K).
+Lemma TST'_eq : prod2 (prods (map indf' P)) curbox = box_idx (lens wf K).
 Proof.
   unfold K, curbox. rewrite lens_app, box_idx_app. f_equal.
   unfold indf'. rewrite <- (map_map (fun x => lens wf (F stab x)) box_idx). rewrite prods_box_idx, lens_flat_map. reflexivity.
 Qed.
-Lemma TST_eq : prod2 (prods (map (ent_indf mtab) U)) curbox = box_idx (lens wf K).
+Lemma TST_eq : prod2 (prods (map (ent_indf mtab) P)) curbox = box_idx (lens wf K).
 Proof.
-  rewrite (map_ext_in _ indf') by (intros x Hx; apply up_ent_indf; exact Hx). exact TST'_eq.
+  rewrite (map_ext_in _ indf') by (intros x Hx; apply up_ent_indf; apply HPu; exact Hx). exact TST'_eq.
 Qed.
-Lemma cols_eq x : In x U -> idx_cols mtab other0 x = cols cf indf' x.
+Lemma cols_eq x : In x U -> idx_cols mtab other' x = cols cf indf' x.
 Proof.
   intros Hx. unfold idx_cols, cols, cf. rewrite (up_ent_nfinal x Hx), (up_ent_indf x Hx). reflexivity.
 Qed.
@@ -314,16 +296,16 @@ Qed.
 
 Section Elem.
 Variables a_in a_st o : list nat.
-Hypothesis HS : sel cf indf' U a_in a_st.
+Hypothesis HS : sel cf indf' P a_in a_st.
 Hypothesis Ho : In o curbox.
 Definition rho : row := combine K (a_st ++ o).
-Definition din : row := combine (flat_map (kin n cf) U ++ cur) (a_in ++ o).
+Definition din : row := combine (flat_map (kin n cf) P ++ cur) (a_in ++ o).
 
 Lemma elem_lengths :
-  List.length a_in = List.length (flat_map (kin n cf) U) /\ List.length a_st = List.length (flat_map (F stab) U) /\
+  List.length a_in = List.length (flat_map (kin n cf) P) /\ List.length a_st = List.length (flat_map (F stab) P) /\
   List.length o = List.length cur.
 Proof.
-  destruct (sel_lengths n cf (F stab) indf' indf'_len U a_in a_st HS) as [L1 L2].
+  destruct (sel_lengths n cf (F stab) indf' indf'_len P a_in a_st HS) as [L1 L2].
   split; [exact L1|]. split; [exact L2|]. unfold curbox in Ho. apply box_idx_elem_length in Ho. rewrite lens_length in Ho. exact Ho.
 Qed.
 
@@ -343,13 +325,13 @@ Proof.
   - apply flatF_bound in H. cbn in H. lia.
   - unfold cur in H. apply in_map_iff in H. destruct H as [f' [E Hf']]. inversion E; subst. contradiction.
 Qed.
-Lemma din_none f : (forall x, ~ In f (cf x)) -> ~ In f (n_split nd) -> lookup din (n, f) = None.
+Lemma din_none f : (forall x, In x P -> ~ In f (cf x)) -> ~ In f (n_split nd) -> lookup din (n, f) = None.
 Proof.
   intros Hcf Hf. destruct elem_lengths as [L1 [L2 L3]]. apply lookup_none. unfold din.
   rewrite map_fst_combine by (rewrite !app_length; lia).
   intros H. apply in_app_or in H. destruct H as [H|H].
-  - apply in_flat_map in H. destruct H as [x [_ H]]. unfold kin in H. apply in_map_iff in H.
-    destruct H as [f' [E Hf']]. inversion E; subst. exact (Hcf x Hf').
+  - apply in_flat_map in H. destruct H as [x [Hx H]]. unfold kin in H. apply in_map_iff in H.
+    destruct H as [f' [E Hf']]. inversion E; subst. exact (Hcf x Hx Hf').
   - unfold cur in H. apply in_map_iff in H. destruct H as [f' [E Hf']]. inversion E; subst. contradiction.
 Qed.
 
@@ -367,7 +349,7 @@ Lemma field_ok f b : nth_error (n_fields nd) f = Some b ->
   (match lookup (mkdict K (a_st ++ o)) (n, f), b with
    | Some i, BSplit vs => option_map VInt (nth_error vs i)
    | Some i, _ => None
-   | None, BUp j => get_value_of mtab j (lookup (mkdict (keys_prev n other0 U ++ cur) (a_in ++ o)) (n, f))
+   | None, BUp j => get_value_of mtab j (lookup (mkdict (keys_prev n other' P ++ cur) (a_in ++ o)) (n, f))
    | None, BConst z => Some (VInt z)
    | None, BSplit _ => None
    end) = Some (sem_arg f b).
@@ -383,50 +365,49 @@ Proof.
     assert (Hlt : x < n) by (apply (proj1 nw_parts); exact Hin).
     destruct (entry_at x Hlt) as [ndx [mex [sex [E1 [E2 [E3 EO]]]]]].
     assert (EF : s_faxes_of stab x = s_faxes sex) by (unfold s_faxes_of; rewrite E3; reflexivity).
-    assert (Kin_nodup : NoDup (keys_prev n other0 U ++ cur)).
+    assert (Kin_nodup : NoDup (keys_prev n other' P ++ cur)).
     { apply NoDup_app_intro.
-      - unfold keys_prev. apply NoDup_flat_map; [apply ups_nodup | |].
-        + intros y _. apply Injective_map_NoDup; [intros p q E; inversion E; reflexivity | apply upstream_nodup].
-        + intros y y' k _ _ Hne Hk Hk'. apply in_map_iff in Hk. destruct Hk as [g [<- Hg]].
+      - unfold keys_prev. apply NoDup_flat_map; [exact HPnd | |].
+        + intros y Hy. apply Injective_map_NoDup; [intros p q E; inversion E; reflexivity | exact (HPf4 y Hy)].
+        + intros y y' k Hy Hy' Hne Hk Hk'. apply in_map_iff in Hk. destruct Hk as [g [<- Hg]].
           apply in_map_iff in Hk'. destruct Hk' as [g' [E Hg']]. inversion E; subst g'.
-          apply (cf_spec y g) in Hg. apply (cf_spec y' g) in Hg'. destruct Hg as [Hg _], Hg' as [Hg' _]. congruence.
+          exact (HPf3 y y' g Hy Hy' Hne Hg Hg').
       - exact (proj1 (proj2 nw_parts)).
-      - intros k Hk Hc. unfold keys_prev in Hk. apply in_flat_map in Hk. destruct Hk as [y [_ Hk]].
-        apply in_map_iff in Hk. destruct Hk as [g [<- Hg]]. apply (cf_spec y g) in Hg. destruct Hg as [Hg _].
-        unfold cur in Hc. apply in_map_iff in Hc. destruct Hc as [g' [E Hg']]. inversion E; subst g'.
-        pose proof (proj1 (proj2 (proj2 nw_parts)) g _ Hg) as Hk. cbn in Hk. contradiction. }
+      - intros k Hk Hc. unfold keys_prev in Hk. apply in_flat_map in Hk. destruct Hk as [y [Hy Hk]].
+        apply in_map_iff in Hk. destruct Hk as [g [<- Hg]]. destruct (HPf2 y g Hy Hg) as [x' [Hg' _]].
+        unfold cur in Hc. apply in_map_iff in Hc. destruct Hc as [g' [E Hg'']]. inversion E; subst g'.
+        pose proof (proj1 (proj2 (proj2 nw_parts)) g _ Hg') as Hk. cbn in Hk. contradiction. }
     rewrite (mkdict_nodup _ _ Kin_nodup).
-    change (combine (keys_prev n other0 U ++ cur) (a_in ++ o)) with din.
+    change (combine (keys_prev n other' P ++ cur) (a_in ++ o)) with din.
     unfold get_value_of, s_out_of. rewrite E2, E3.
     assert (Hcase : s_faxes sex = [] \/ s_faxes sex <> []) by (destruct (s_faxes sex); [left; reflexivity | right; discriminate]).
     destruct Hcase as [EFX|HFX].
     + (* nothing open upstream: the whole output *)
       rewrite din_none; [apply (get_value_none_closed wf _ _ _ _ _ EO); exact EFX | | exact Hkind].
-      intros y Hy. apply cf_spec in Hy. destruct Hy as [Hy1 Hy2]. rewrite Hb in Hy1. inversion Hy1; subst y.
-      unfold F in Hy2. rewrite EF, EFX in Hy2. contradiction.
-    + assert (HxU : In x U).
-      { apply ups_in. split; [exact Hin|]. unfold F. rewrite EF. exact HFX. }
-      assert (Hfx : In f (cf x)).
-      { apply cf_spec. split; [exact Hb|]. unfold F. rewrite EF. exact HFX. }
-      destruct (sel_lookup n cf (F stab) indf' indf'_len U a_in a_st HS (ups_nodup _ _)
-                  (fun a b g _ _ Hne Ha Hb' => ltac:(apply cf_spec in Ha; apply cf_spec in Hb'; destruct Ha as [Ha _], Hb' as [Hb' _]; congruence))
-                  (fun a b k Ha Hb' Hne => proj1 (sep_spec a b Ha Hb' Hne) k)
-                  cur o cur o x HxU) as [i [t [Hi [Ht [L1 L2]]]]].
+      intros y Hy Hfy. destruct (HPf2 y f Hy Hfy) as [x' [Hx' HFx']]. rewrite Hb in Hx'. inversion Hx'; subst x'.
+      unfold F in HFx'. rewrite EF, EFX in HFx'. contradiction.
+    + assert (HFx : F stab x <> []) by (unfold F; rewrite EF; exact HFX).
+      destruct (HPf1 f x Hb HFx) as [p [Hp [Hfp EFp]]].
+      destruct (sel_lookup n cf (F stab) indf' indf'_len P a_in a_st HS HPnd
+                  (fun a b g Ha Hb' Hne => HPf3 a b g Ha Hb' Hne)
+                  (fun a b k Ha Hb' Hne => HPd a b k Ha Hb' Hne)
+                  cur o cur o p Hp) as [i [t [Hi [Ht [L1 L2]]]]].
       unfold din.
-      rewrite (L1 f Hfx).
-      unfold indf', F in Hi, Ht. rewrite EF in Hi, Ht.
+      rewrite (L1 f Hfp).
+      unfold indf' in Hi, Ht. rewrite <- EFp in Hi, Ht. unfold F in Hi, Ht. rewrite EF in Hi, Ht.
       rewrite (get_value_some wf _ _ _ _ _ EO i HFX Hi). f_equal.
       rewrite (box_nth wf _ _ Hi). rewrite (nth_error_nth _ _ _ Ht).
       apply (eo_out_ext wf _ _ _ _ _ EO). apply agree_iff. intros k Hk.
-      unfold rho, K. unfold F in L2. rewrite EF in L2. symmetry. apply L2. exact Hk.
+      unfold rho, K. symmetry. rewrite <- EF in Hk. fold (F stab x) in Hk. rewrite EFp in Hk.
+      rewrite (L2 k Hk). rewrite <- EFp. unfold F. rewrite EF. reflexivity.
 Qed.
 End Elem.
 
 Lemma job_args_ok a_in a_st o :
-  sel cf indf' U a_in a_st -> In o curbox ->
+  sel cf indf' P a_in a_st -> In o curbox ->
   forall fields' f0,
   (forall i b, nth_error fields' i = Some b -> nth_error (n_fields nd) (f0 + i) = Some b) ->
-  all_some (job_args wf mtab n f0 fields' (mkdict (keys_prev n other0 U ++ cur) (a_in ++ o)) (mkdict K (a_st ++ o)))
+  all_some (job_args wf mtab n f0 fields' (mkdict (keys_prev n other' P ++ cur) (a_in ++ o)) (mkdict K (a_st ++ o)))
   = Some (sem_args stab n f0 fields' (rho a_st o)).
 Proof.
   intros HS Ho. induction fields' as [|b fields' IH]; intros f0 H; [reflexivity|].
@@ -438,8 +419,8 @@ Proof.
 Qed.
 
 Lemma job_ok a_in a_st o :
-  sel cf indf' U a_in a_st -> In o curbox ->
-  job_of wf mtab n nd (mkdict (keys_prev n other0 U ++ cur) (a_in ++ o), mkdict K (a_st ++ o))
+  sel cf indf' P a_in a_st -> In o curbox ->
+  job_of wf mtab n nd (mkdict (keys_prev n other' P ++ cur) (a_in ++ o), mkdict K (a_st ++ o))
   = Some (s_sem se' (combine K (a_st ++ o))).
 Proof.
   intros HS Ho. unfold job_of. cbn [fst snd].
@@ -448,15 +429,15 @@ Qed.
 
 Lemma jobs_ok :
   all_some (map (job_of wf mtab n nd)
-     (combine (map (mkdict (keys_prev n other0 U ++ cur)) (prod2 (prods (map (idx_cols mtab other0) U)) curbox))
-              (map (mkdict K) (prod2 (prods (map (ent_indf mtab) U)) curbox))))
+     (combine (map (mkdict (keys_prev n other' P ++ cur)) (prod2 (prods (map (idx_cols mtab other') P)) curbox))
+              (map (mkdict K) (prod2 (prods (map (ent_indf mtab) P)) curbox))))
   = Some (map (s_sem se') (box wf K)).
 Proof.
   rewrite combine_map.
-  rewrite (map_ext_in (idx_cols mtab other0) (cols cf indf')) by (intros x Hx; apply cols_eq; exact Hx).
-  rewrite (map_ext_in (ent_indf mtab) indf') by (intros x Hx; apply up_ent_indf; exact Hx).
+  rewrite (map_ext_in (idx_cols mtab other') (cols cf indf')) by (intros x Hx; apply cols_eq; apply HPu; exact Hx).
+  rewrite (map_ext_in (ent_indf mtab) indf') by (intros x Hx; apply up_ent_indf; apply HPu; exact Hx).
   rewrite combine_prod2 by reflexivity.
-  destruct (combine_prods (cols cf indf') indf' U) as [CP CL].
+  destruct (combine_prods (cols cf indf') indf' P) as [CP CL].
   { intros x _. unfold cols. rewrite map_length, seq_length. reflexivity. }
   rewrite CP. rewrite map_map.
   rewrite (all_some_map _ (fun p => s_sem se' (combine K (snd p)))).
@@ -473,8 +454,7 @@ Qed.
 (* --- the new spec entry --- *)
 Lemma F_incl_K x : In (BUp x) (n_fields nd) -> incl (F stab x) K.
 Proof.
-  intros Hb k Hk. unfold K. apply in_or_app. left. apply in_flat_map. exists x. split; [|exact Hk].
-  apply ups_in. split; [exact Hb|]. intros E. rewrite E in Hk. exact Hk.
+  intros Hb k Hk. unfold K. apply in_or_app. left. rewrite <- HPa. exact (up_axes_incl stab _ x Hb k Hk).
 Qed.
 Lemma sem_args_ext r1 r2 : agree K r1 r2 = true ->
   forall fields' f0, (forall i b, nth_error fields' i = Some b -> nth_error (n_fields nd) (f0 + i) = Some b) ->
@@ -500,21 +480,34 @@ Proof. induction l; cbn; congruence. Qed.
 Lemma faxes_eq : s_faxes se' = filter (fun k => negb (memk k (n_comb nd))) K.
 Proof. rewrite <- axes_eq. reflexivity. Qed.
 
+Lemma U_nil_of_P_nil : P = [] -> U = [].
+Proof.
+  intros EP. destruct U as [|x l] eqn:EU; [reflexivity|]. exfalso.
+  assert (Hx : In x U) by (rewrite EU; left; reflexivity). apply ups_in in Hx. destruct Hx as [Hb HF].
+  pose proof (up_axes_incl stab _ x Hb) as Hi. rewrite HPa, EP in Hi. cbn in Hi.
+  unfold F in HF. destruct (s_faxes_of stab x) as [|k r]; [contradiction|]. apply (Hi k). left; reflexivity.
+Qed.
+Lemma P_nil_of_flat_nil : flat_map (F stab) P = [] -> P = [].
+Proof.
+  intros E. destruct P as [|x l] eqn:EP; [reflexivity|]. exfalso.
+  assert (Hx : In x U) by (apply HPu; left; reflexivity). apply ups_in in Hx. destruct Hx as [_ Hx].
+  cbn in E. apply app_eq_nil in E. destruct E as [E _]. contradiction.
+Qed.
 Lemma K_nil_iff : K = [] <-> (n_split nd = [] /\ n_comb nd = [] /\ other0 = []).
 Proof.
   split.
   - intros E. unfold K in E. apply app_eq_nil in E. destruct E as [E1 E2].
-    assert (EU : U = []).
-    { destruct U as [|x l] eqn:EU; [reflexivity|]. exfalso.
-      assert (Hx : In x U) by (rewrite EU; left; reflexivity). apply ups_in in Hx. destruct Hx as [_ Hx].
-      cbn in E1. apply app_eq_nil in E1. destruct E1 as [E1 _]. contradiction. }
+    assert (EU : U = []) by (apply U_nil_of_P_nil, P_nil_of_flat_nil; exact E1).
     split; [|split].
     + unfold cur in E2. destruct (n_split nd); [reflexivity | discriminate E2].
     + pose proof (proj2 (proj2 (proj2 (proj2 (proj2 nw_parts))))) as Hc. rewrite axes_eq in Hc. unfold K in Hc.
       rewrite E1, E2 in Hc. destruct (n_comb nd) as [|k r]; [reflexivity|]. exfalso. apply (Hc k). left; reflexivity.
     + pose proof other0_fst as H. rewrite EU in H. destruct other0; [reflexivity | discriminate H].
   - intros [E1 [E2 E3]]. unfold K, cur. rewrite E1. pose proof other0_fst as H. rewrite E3 in H. cbn in H.
-    rewrite <- H. reflexivity.
+    assert (EP : P = []).
+    { destruct P as [|x l] eqn:EP; [reflexivity|]. exfalso. assert (Hx : In x U) by (apply HPu; left; reflexivity).
+      rewrite <- H in Hx. exact Hx. }
+    rewrite EP. reflexivity.
 Qed.
 
 Lemma new_entry_common me :
@@ -527,6 +520,8 @@ Proof.
   - intros k Hk. rewrite axes_eq in Hk. unfold K in Hk. apply in_app_or in Hk. destruct Hk as [Hk|Hk].
     + apply flatF_bound in Hk. lia.
     + apply cur_fst in Hk. lia.
+  - unfold se', spec_entry. cbn [s_axes]. rewrite up_axes_ext; [reflexivity|].
+    intros x Hx. rewrite <- Hn. apply (proj1 nw_parts). exact Hx.
   - reflexivity.
   - exact (proj2 (proj2 (proj2 (proj2 (proj2 nw_parts))))).
   - intros r1 r2 HA. rewrite axes_eq in HA. unfold se', spec_entry. cbn [s_sem]. f_equal.
@@ -540,7 +535,7 @@ Lemma ups_ext1 : ups (stab ++ [se']) (n_fields nd) = U.
 Proof. apply ups_ext. intros x Hx. rewrite <- Hn. apply (proj1 nw_parts). exact Hx. Qed.
 
 (* --- the model's step --- *)
-Lemma step_ok : exists me, step wf mtab n nd = Some me /\ entry_ok wf (stab ++ [se']) n nd me se'.
+Lemma step_abs : exists me, step wf mtab n nd = Some me /\ entry_ok wf (stab ++ [se']) n nd me se'.
 Proof.
   unfold step. fold other0.
   destruct (is_nil (n_split nd) && is_nil (n_comb nd) && is_nil other0) eqn:EC.
@@ -549,8 +544,11 @@ Proof.
     apply is_nil_true in E1, E2, E3.
     assert (EK : K = []) by (apply K_nil_iff; auto).
     assert (EU : U = []) by (rewrite <- other0_fst, E3; reflexivity).
+    assert (EP : P = []).
+    { destruct P as [|x l] eqn:EP; [reflexivity|]. exfalso. assert (Hx : In x U) by (apply HPu; left; reflexivity).
+      rewrite EU in Hx. exact Hx. }
     assert (Ecur : cur = []) by (unfold cur; rewrite E1; reflexivity).
-    assert (HS : sel cf indf' U [] []) by (rewrite EU; split; reflexivity).
+    assert (HS : sel cf indf' P [] []) by (rewrite EP; split; reflexivity).
     assert (Ho : In [] curbox) by (unfold curbox; rewrite Ecur; left; reflexivity).
     exists (MStateless (s_sem se' [])). split.
     + unfold resolve_all.
@@ -560,7 +558,7 @@ Proof.
       { induction fields' as [|b fields' IH]; intros f0 H; [reflexivity|]. cbn [map all_some sem_args].
         pose proof (H 0 b eq_refl) as Hb. rewrite Nat.add_0_r in Hb.
         pose proof (field_ok [] [] [] HS Ho f0 b Hb) as FO. cbn [app] in FO.
-        rewrite EK, EU, Ecur in FO. cbn in FO.
+        rewrite EK, EP, Ecur in FO. cbn in FO.
         rewrite (IH (S f0)) by (intros i b' Hi; specialize (H (S i) b' Hi); rewrite <- Nat.add_succ_comm in H; exact H).
         unfold sem_arg, rho in FO. rewrite EK in FO. cbn in FO.
         destruct b as [z|vs|x]; [reflexivity | discriminate FO | rewrite FO; reflexivity]. }
@@ -568,31 +566,29 @@ Proof.
     + apply new_entry_common; [reflexivity | intros H; contradiction].
   - assert (HK : K <> []).
     { intros E. apply K_nil_iff in E. destruct E as [E1 [E2 E3]]. rewrite E1, E2, E3 in EC. discriminate EC. }
-    assert (Hconn : (if is_nil other0 then Some ([], []) else connect mtab other0) = Some (U, other0)).
-    { destruct (is_nil other0) eqn:E; [|exact connect_ok]. apply is_nil_true in E.
-      pose proof other0_fst as H. rewrite E in H. cbn in H. rewrite <- H, E. reflexivity. }
-    rewrite Hconn. unfold build_state.
-    (* the max() failure is excluded by the class *)
-    assert (EP : flat_map (ent_rpnf mtab) U = flat_map (F stab) U).
-    { apply flat_map_ext_in. intros x Hx. apply ent_rpnf_eq. apply ups_in in Hx. apply (proj1 nw_parts). tauto. }
-    assert (EKf : flat_map (ent_keysf mtab) U = flat_map (F stab) U).
-    { apply flat_map_ext_in. intros x Hx. apply up_ent_keysf. exact Hx. }
+    rewrite HPc. unfold build_state.
+    assert (EP : flat_map (ent_rpnf mtab) P = flat_map (F stab) P).
+    { apply flat_map_ext_in. intros x Hx. apply ent_rpnf_eq. apply HPu in Hx. apply ups_in in Hx. apply (proj1 nw_parts). tauto. }
+    assert (EKf : flat_map (ent_keysf mtab) P = flat_map (F stab) P).
+    { apply flat_map_ext_in. intros x Hx. apply up_ent_keysf. apply HPu. exact Hx. }
     rewrite EP, EKf. fold cur. fold K. change (box_idx (map (key_len wf) cur)) with curbox.
-    assert (EG : negb (is_nil U) && negb (is_nil cur) && forallb (fun k => memk k (n_comb nd)) (flat_map (F stab) U) = false).
+    assert (EG : negb (is_nil P) && negb (is_nil cur) && forallb (fun k => memk k (n_comb nd)) (flat_map (F stab) P) = false).
     { pose proof CA as C. unfold comb_all_prev_ok in C. apply negb_true_iff in C. fold U in C.
-      rewrite up_axes_eq in C. unfold cur. destruct (n_split nd); [rewrite andb_false_r; reflexivity | exact C]. }
+      rewrite HPa in C. unfold cur. destruct (n_split nd); [rewrite andb_false_r; reflexivity|].
+      destruct P as [|p pl] eqn:EPP; [reflexivity|].
+      destruct U as [|u us] eqn:EUU; [exfalso; apply (HPu p); left; reflexivity | exact C]. }
     match goal with |- context [if ?c then None else _] => assert (EG' : c = false) by exact EG; rewrite EG'; clear EG' end.
-    assert (Hin : (if is_nil other0 then map (mkdict K) (prod2 (prods (map (ent_indf mtab) U)) curbox)
-                   else map (mkdict (keys_prev n other0 U ++ cur)) (prod2 (prods (map (idx_cols mtab other0) U)) curbox))
-                  = map (mkdict (keys_prev n other0 U ++ cur)) (prod2 (prods (map (idx_cols mtab other0) U)) curbox)).
-    { destruct (is_nil other0) eqn:E; [|reflexivity]. apply is_nil_true in E.
-      assert (EU : U = []) by (rewrite <- other0_fst, E; reflexivity).
-      rewrite EU. unfold K. rewrite EU. reflexivity. }
+    assert (Hin : (if is_nil other' then map (mkdict K) (prod2 (prods (map (ent_indf mtab) P)) curbox)
+                   else map (mkdict (keys_prev n other' P ++ cur)) (prod2 (prods (map (idx_cols mtab other') P)) curbox))
+                  = map (mkdict (keys_prev n other' P ++ cur)) (prod2 (prods (map (idx_cols mtab other') P)) curbox)).
+    { destruct (is_nil other') eqn:E; [|reflexivity]. apply is_nil_true in E.
+      pose proof (HPo E) as EPn. rewrite EPn. unfold K. rewrite EPn. reflexivity. }
     rewrite Hin, jobs_ok.
     eexists. split; [reflexivity|]. apply new_entry_common; [intros E; contradiction|]. intros _.
     eexists. split; [reflexivity|]. constructor; cbn [m_other m_prev m_cur m_comb m_rpnf m_keys m_sind m_keysf m_indf m_sindf m_jobs].
-    + rewrite ups_ext1. exact other0_fst.
-    + rewrite ups_ext1. reflexivity.
+    + rewrite ups_ext1. exact HPu.
+    + rewrite ups_ext1. exact HPn.
+    + rewrite ups_ext1. exact HPs.
     + reflexivity.
     + reflexivity.
     + rewrite faxes_eq. reflexivity.
@@ -607,4 +603,225 @@ Proof.
       * reflexivity.
     + rewrite axes_eq. reflexivity.
 Qed.
+End Abs.
+
+(* --- separate origins: nothing is removed, nothing merged --- *)
+Section Sep.
+Hypothesis SH : pairwise (sep_ok wf stab) U = true.
+
+Lemma sep_spec x y : In x U -> In y U -> x <> y ->
+  (forall k, In k (F stab x) -> ~ In k (F stab y)) /\ ~ In x (ups stab (n_fields (node_at wf y))).
+Proof.
+  intros Hx Hy Hne. pose proof (pairwise_spec _ _ SH x y Hx Hy Hne) as H. unfold sep_ok, parents in H.
+  apply andb_true_iff in H. destruct H as [H1 H2]. split.
+  - intros k Hk. unfold disjointk in H1. rewrite forallb_forall in H1. specialize (H1 k Hk).
+    apply negb_true_iff in H1. apply memk_false in H1. exact H1.
+  - apply negb_true_iff in H2. apply memn_false in H2. exact H2.
+Qed.
+
+Lemma up_axes_eq : up_axes stab (n_fields nd) = flat_map (F stab) U.
+Proof.
+  apply up_axes_flat; [exact up_faxes_nodup|].
+  intros x y Hx Hy Hne k Hk Hky.
+  assert (HFx : F stab x <> []) by (intros E; rewrite E in Hk; exact Hk).
+  assert (HFy : F stab y <> []) by (intros E; rewrite E in Hky; exact Hky).
+  exact (proj1 (sep_spec x y (proj2 (ups_in _ _ _) (conj Hx HFx)) (proj2 (ups_in _ _ _) (conj Hy HFy)) Hne) k Hk Hky).
+Qed.
+
+
+Lemma cf0_spec x f : In f (fields_of other0 x) <-> nth_error (n_fields nd) f = Some (BUp x) /\ F stab x <> [].
+Proof. unfold other0. apply upstream_fields. intros y Hy. apply ent_rpnf_eq. apply (proj1 nw_parts). exact Hy. Qed.
+
+Lemma connect_ok : connect mtab other0 = Some (U, other0).
+Proof.
+  rewrite <- other0_fst. apply connect_id. rewrite other0_fst. intros el Hel.
+  apply filter_nil. intros z Hz. apply (up_ent_prev_incl el z Hel) in Hz.
+  destruct (memn z (filter (fun e => is_nil (ent_other mtab e)) U)) eqn:E; [|reflexivity]. exfalso.
+  apply memn_In in E. apply filter_In in E. destruct E as [HzU _].
+  assert (Hne : z <> el).
+  { intros ->. destruct (up_state el Hel) as [ndx [sex [s [Hlt [E1 _]]]]].
+    apply ups_in in Hz. destruct Hz as [Hz _]. unfold node_at in Hz. rewrite (nth_error_nth _ _ _ E1) in Hz.
+    pose proof (FL el ndx E1 el Hz). lia. }
+  exact (proj2 (sep_spec z el HzU Hel Hne) Hz).
+Qed.
+
+
+Lemma step_ok : exists me, step wf mtab n nd = Some me /\ entry_ok wf (stab ++ [se']) n nd me se'.
+Proof.
+  apply (step_abs U other0).
+  - destruct (is_nil other0) eqn:E; [|exact connect_ok]. apply is_nil_true in E.
+    pose proof other0_fst as H. rewrite E in H. cbn in H. rewrite <- H, E. reflexivity.
+  - apply incl_refl.
+  - apply ups_nodup.
+  - intros p q k Hp Hq Hne. exact (proj1 (sep_spec p q Hp Hq Hne) k).
+  - exact up_axes_eq.
+  - intros f x Hb HF. exists x. split; [apply ups_in; split; [eapply nth_error_In; exact Hb | exact HF]|].
+    split; [apply cf0_spec; split; assumption | reflexivity].
+  - intros p f _ Hf. apply cf0_spec in Hf. exists p. exact Hf.
+  - intros p q f _ _ Hne Hp Hq. apply cf0_spec in Hp. apply cf0_spec in Hq. destruct Hp as [Hp _], Hq as [Hq _]. congruence.
+  - intros p _. apply upstream_nodup.
+  - intros E. rewrite <- other0_fst, E. reflexivity.
+  - intros E. pose proof other0_fst as H. rewrite E in H. destruct other0; [reflexivity | discriminate H].
+  - intros _. split; [reflexivity | exact other0_fst].
+Qed.
+End Sep.
+
+(* --- the one shared origin the code aligns: a state x and a node y that only hands x's state on --- *)
+Section Relay.
+Variables x y : nat.
+Hypothesis HU : U = [x; y] \/ U = [y; x].
+Hypothesis HR : relays wf stab x y = true.
+
+Lemma relay_parts :
+  parents wf stab x = [] /\ parents wf stab y = [x] /\ n_split (node_at wf y) = [] /\ n_comb (node_at wf y) = [].
+Proof.
+  pose proof HR as R. unfold relays in R.
+  apply andb_true_iff in R. destruct R as [R R4]. apply andb_true_iff in R. destruct R as [R R3].
+  apply andb_true_iff in R. destruct R as [R1 R2].
+  apply is_nil_true in R1, R3, R4. split; [exact R1|]. split; [|split; assumption].
+  apply (list_eqb_spec Nat.eqb Nat.eqb_eq). exact R2.
+Qed.
+Lemma relay_in : In x U /\ In y U /\ x <> y.
+Proof.
+  pose proof (ups_nodup stab (n_fields nd)) as Hnd0. fold U in Hnd0.
+  destruct HU as [E|E]; rewrite E in *; inversion Hnd0 as [|? ? Hn0 _]; subst; cbn in Hn0;
+    (split; [cbn; tauto|]); (split; [cbn; tauto|]); intros ->; apply Hn0; left; reflexivity.
+Qed.
+
+Lemma relay_x_other : ent_other mtab x = [].
+Proof.
+  destruct relay_in as [Hx _]. destruct (up_state x Hx) as [ndx [sex [s [Hlt [E1 [E2 [E3 [EO [SO [HF EF]]]]]]]]]].
+  unfold ent_other, ent. rewrite E2. apply (so_other_nil _ _ _ _ _ _ SO).
+  pose proof (proj1 relay_parts) as Hp. unfold parents, node_at in Hp. rewrite (nth_error_nth _ _ _ E1) in Hp. exact Hp.
+Qed.
+Lemma relay_y_state :
+  ent_other mtab y <> [] /\ ent_cur mtab y = [] /\ ent_prev mtab y = [x].
+Proof.
+  destruct relay_in as [_ [Hy _]]. destruct (up_state y Hy) as [ndy [sey [s [Hlt [E1 [E2 [E3 [EO [SO [HF EF]]]]]]]]]].
+  destruct relay_parts as [_ [Hp [Hs _]]]. unfold parents, node_at in Hp, Hs. rewrite (nth_error_nth _ _ _ E1) in Hp, Hs.
+  destruct (so_exact _ _ _ _ _ _ SO) as [X1 X2]; [rewrite Hp; cbn; lia|].
+  unfold ent_other, ent_cur, ent_prev, ent. rewrite E2. split; [|split].
+  - intros E. rewrite E, Hp in X2. discriminate X2.
+  - rewrite (so_cur _ _ _ _ _ _ SO), Hs. reflexivity.
+  - rewrite X1, Hp. reflexivity.
+Qed.
+
+Lemma up_axes_const stab0 fields A :
+  NoDup A -> (forall j, In (BUp j) fields -> s_faxes_of stab0 j = [] \/ s_faxes_of stab0 j = A) ->
+  (exists j, In (BUp j) fields /\ s_faxes_of stab0 j = A) -> up_axes stab0 fields = A.
+Proof.
+  intros HA Hall Hex. unfold up_axes.
+  assert (G : forall fs a, (a = [] \/ a = A) -> (forall j, In (BUp j) fs -> s_faxes_of stab0 j = [] \/ s_faxes_of stab0 j = A) ->
+     let r := fold_left (fun a b => match b with BUp j => add_new a (s_faxes_of stab0 j) | _ => a end) fs a in
+     (r = [] \/ r = A) /\ (a = A -> r = A) /\ ((exists j, In (BUp j) fs /\ s_faxes_of stab0 j = A) -> r = A)).
+  { induction fs as [|b fs IH]; intros a Ha Hfs; cbn [fold_left].
+    - split; [exact Ha|]. split; [auto|]. intros [j [[] _]].
+    - set (a' := match b with BUp j => add_new a (s_faxes_of stab0 j) | _ => a end).
+      assert (Ha' : (a' = [] \/ a' = A) /\ (a = A -> a' = A) /\ (forall j, b = BUp j -> s_faxes_of stab0 j = A -> a' = A)).
+      { unfold a'. destruct b as [z|vs|j]; [repeat split; auto; intros j E; discriminate E | repeat split; auto; intros j E; discriminate E |].
+        destruct (Hfs j (or_introl eq_refl)) as [E|E]; rewrite E.
+        - rewrite add_new_nil. repeat split; auto. intros j' Ej EA. inversion Ej; subst j'. rewrite E in EA. subst A.
+          destruct Ha as [->| ->]; reflexivity.
+        - destruct Ha as [->| ->].
+          + rewrite add_new_fresh by (try exact HA; intros k _ []). cbn. repeat split; auto.
+          + rewrite add_new_absorb by apply incl_refl. repeat split; auto. }
+      destruct Ha' as [A1 [A2 A3]].
+      destruct (IH a' A1 (fun j Hj => Hfs j (or_intror Hj))) as [I1 [I2 I3]]. split; [exact I1|]. split.
+      + intros E. apply I2. apply A2. exact E.
+      + intros [j [[Ej|Hj] EA]]; [apply I2; apply (A3 j Ej EA) | apply I3; exists j; split; assumption]. }
+  destruct (G fields [] (or_introl eq_refl) Hall) as [_ [_ G3]]. apply G3. exact Hex.
+Qed.
+
+Lemma relay_F : F stab y = F stab x.
+Proof.
+  destruct relay_in as [Hx [Hy Hne]]. destruct (up_state y Hy) as [ndy [sey [s [Hlt [E1 [E2 [E3 [EO [SO [HF EF]]]]]]]]]].
+  destruct relay_parts as [_ [Hp [Hs Hc]]]. unfold parents, node_at in Hp, Hs, Hc. rewrite (nth_error_nth _ _ _ E1) in Hp, Hs, Hc.
+  unfold F at 1. rewrite EF. rewrite (eo_comb_nil_faxes wf _ _ _ _ _ EO Hc), (eo_axes _ _ _ _ _ _ EO), Hs. cbn [map]. rewrite app_nil_r.
+  assert (Hxin : In x (ups stab (n_fields ndy))) by (rewrite Hp; left; reflexivity).
+  apply ups_in in Hxin. destruct Hxin as [Hbx HFx].
+  apply up_axes_const.
+  - destruct relay_in as [Hx' _]. apply up_faxes_nodup. apply ups_in in Hx'. tauto.
+  - intros j Hj. destruct (s_faxes_of stab j) as [|k r] eqn:EJ; [left; reflexivity|]. right.
+    assert (Hju : In j (ups stab (n_fields ndy))) by (apply ups_in; split; [exact Hj | unfold F; rewrite EJ; discriminate]).
+    rewrite Hp in Hju. destruct Hju as [<-|[]]. unfold F. rewrite EJ. reflexivity.
+  - exists x. split; [exact Hbx | reflexivity].
+Qed.
+
+Definition other1 := add_fields other0 x (fields_of other0 y).
+
+Lemma fields_of_add_fields o j fl z :
+  fields_of (add_fields o j fl) z = if Nat.eqb z j then fields_of o j ++ fl else fields_of o z.
+Proof.
+  unfold fields_of. induction o as [|[j' fl'] o IH]; cbn.
+  - rewrite (Nat.eqb_sym j z). destruct (Nat.eqb z j); reflexivity.
+  - destruct (Nat.eqb j' j) eqn:E; cbn.
+    + apply Nat.eqb_eq in E; subst j'. destruct (Nat.eqb j z) eqn:E2.
+      * apply Nat.eqb_eq in E2; subst. rewrite Nat.eqb_refl. reflexivity.
+      * rewrite (Nat.eqb_sym z j), E2. reflexivity.
+    + destruct (Nat.eqb j' z) eqn:E2.
+      * apply Nat.eqb_eq in E2; subst j'. rewrite E. reflexivity.
+      * exact IH.
+Qed.
+
+Lemma hist_relay l : l = [x; y] \/ l = [y; x] -> history mtab l other0 = Some ([x], other1).
+Proof.
+  destruct relay_in as [_ [_ Hne]]. destruct relay_y_state as [Y1 [Y2 Y3]].
+  assert (Bx : is_nil (ent_other mtab x) = true) by (rewrite relay_x_other; reflexivity).
+  assert (By : is_nil (ent_other mtab y) = false) by (apply is_nil_false; exact Y1).
+  assert (Cy : is_nil (ent_cur mtab y) = true) by (rewrite Y2; reflexivity).
+  assert (Exy : Nat.eqb x y = false) by (apply Nat.eqb_neq; exact Hne).
+  assert (Eyx : Nat.eqb y x = false) by (apply Nat.eqb_neq; intros E; apply Hne; symmetry; exact E).
+  intros [-> | ->]; unfold history; cbn [filter]; rewrite Bx, By, Cy; cbn [negb andb filter fold_left];
+    rewrite Y3; cbn [filter memn existsb]; rewrite Nat.eqb_refl; cbn [orb is_nil forallb andb fold_left remove1];
+    rewrite ?Exy, ?Eyx, ?Nat.eqb_refl; reflexivity.
+Qed.
+
+Lemma connect_relay : connect mtab other0 = Some ([x], other1).
+Proof.
+  destruct relay_in as [_ [_ Hne]].
+  assert (Exy : Nat.eqb x y = false) by (apply Nat.eqb_neq; exact Hne).
+  assert (Eyx : Nat.eqb y x = false) by (apply Nat.eqb_neq; intros E; apply Hne; symmetry; exact E).
+  unfold connect. rewrite other0_fst. rewrite (hist_relay U HU).
+  destruct HU as [E|E]; rewrite E; cbn [filter memn existsb negb orb]; rewrite ?Exy, ?Eyx, ?Nat.eqb_refl; cbn [negb orb];
+    apply hist_relay; right; reflexivity.
+Qed.
+
+Lemma step_relay : exists me, step wf mtab n nd = Some me /\ entry_ok wf (stab ++ [se']) n nd me se'.
+Proof.
+  destruct relay_in as [Hx [Hy Hne]].
+  assert (HFx : forall j, In j U -> F stab j = F stab x).
+  { intros j Hj. destruct HU as [E|E]; rewrite E in Hj; destruct Hj as [<-|[<-|[]]]; auto using relay_F. }
+  assert (Hcf : forall f, In f (fields_of other1 x) <-> In f (fields_of other0 x) \/ In f (fields_of other0 y)).
+  { intros f. unfold other1. rewrite fields_of_add_fields, Nat.eqb_refl. rewrite in_app_iff. reflexivity. }
+  apply (step_abs [x] other1).
+  - assert (E : is_nil other0 = false).
+    { apply is_nil_false. intros E. pose proof other0_fst as H. rewrite E in H. cbn in H. rewrite <- H in Hx. exact Hx. }
+    rewrite E. exact connect_relay.
+  - intros p [<-|[]]. exact Hx.
+  - constructor; [intros [] | constructor].
+  - intros p q k [<-|[]] [<-|[]] H. contradiction.
+  - cbn [flat_map]. rewrite app_nil_r. apply up_axes_const.
+    + apply up_faxes_nodup. apply ups_in in Hx. tauto.
+    + intros j Hj. destruct (s_faxes_of stab j) as [|k r] eqn:EJ; [left; reflexivity|]. right.
+      assert (Hju : In j U) by (apply ups_in; split; [exact Hj | unfold F; rewrite EJ; discriminate]).
+      rewrite <- EJ. exact (HFx j Hju).
+    + exists x. split; [apply ups_in in Hx; tauto | reflexivity].
+  - intros f j Hb HF. exists x. split; [left; reflexivity|].
+    assert (Hju : In j U) by (apply ups_in; split; [eapply nth_error_In; exact Hb | exact HF]).
+    split; [|exact (HFx j Hju)].
+    apply Hcf. destruct HU as [E|E]; rewrite E in Hju; destruct Hju as [<-|[<-|[]]];
+      ((left; apply cf0_spec; split; assumption) || (right; apply cf0_spec; split; assumption)).
+  - intros p f [<-|[]] Hf. apply Hcf in Hf. destruct Hf as [Hf|Hf]; apply cf0_spec in Hf; [exists x | exists y]; exact Hf.
+  - intros p q f [<-|[]] [<-|[]] H. contradiction.
+  - intros p [<-|[]]. unfold cf, other1. rewrite fields_of_add_fields, Nat.eqb_refl. apply NoDup_app_intro.
+    + apply upstream_nodup.
+    + apply upstream_nodup.
+    + intros f H1 H2. apply cf0_spec in H1. apply cf0_spec in H2. destruct H1 as [H1 _], H2 as [H2 _]. rewrite H1 in H2.
+      inversion H2. contradiction.
+  - intros E. exfalso. unfold other1 in E. destruct other0 as [|[j fl] o]; cbn in E; [discriminate E|].
+    destruct (Nat.eqb j x); discriminate E.
+  - intros E. rewrite E in Hx. contradiction.
+  - intros L. exfalso. destruct HU as [E|E]; rewrite E in L; cbn in L; lia.
+Qed.
+End Relay.
 End Node.
